@@ -1069,6 +1069,13 @@ func selectReverseStrategy(n *nfa.NFA, re *syntax.Regexp, literals *literal.Seq,
 		return 0
 	}
 
+	// The reverse searchers take the suffix/inner occurrence they find first and
+	// extend greedily; a lazy quantifier (.*?foo, [ab]+?x) prefers a different
+	// split of the same text, which only the forward engines get right.
+	if hasNonGreedyQuantifier(re) {
+		return 0
+	}
+
 	if n.IsAlwaysAnchored() || nfa.IsPatternEndAnchored(re) {
 		return 0 // Anchored patterns use other strategies
 	}
